@@ -40,7 +40,7 @@ structure World where
 
 def World.node (w : World) (i : Nat) : State := w.nodes.getD i { peer := 0 }
 def World.setNode (w : World) (i : Nat) (s : State) : World := { w with nodes := w.nodes.set i s }
-def World.now (w : World) (i : Nat) : Int := w.tick * 10 + w.offs.getD i 0
+def World.now (w : World) (i : Nat) : Int := 1000 + w.tick * 10 + w.offs.getD i 0
 
 def World.queue (w : World) (i : Nat) (e : Event) : World :=
   if w.lazyMode then { w with pending := w.pending.set i (w.pending.getD i [] ++ [e]) }
@@ -140,6 +140,9 @@ def step (w : World) (line : String) : World × String :=
     match (w.sent.getD f.toNat! [])[k.toNat!]? with
     | some ev => (w.setNode t.toNat! (merge (w.node t.toNat!) ev), "ok")
     | none => (w, "nosuch")
+  | ["deliverall", f, t] =>
+    let st := (w.sent.getD f.toNat! []).foldl merge (w.node t.toNat!)
+    (w.setNode t.toNat! st, "ok")
   | ["batch", f, ks, t] =>
     let evs := (ks.splitOn ",").filterMap (fun k => (w.sent.getD f.toNat! [])[k.toNat!]?)
     let ev := evs.foldl Event.append {}
